@@ -78,6 +78,7 @@ class RunTaskExecutable(Operation):
     def start_execution(
         self, ctx: Context, slot: Optional[int]
     ) -> OperationExecutionHandle:
+        process = None
         try:
             self._output_path.mkdir(parents=True, exist_ok=True)
 
